@@ -109,6 +109,9 @@ func (t *trTranslator) directEffect(f *trFunc) bool {
 func (t *trTranslator) directEffectIn(info *types.Info, root ast.Node) bool {
 	eff := false
 	ast.Inspect(root, func(n ast.Node) bool {
+		if trPerfEffect(info, n) {
+			eff = true // dereference of a nilable pointer, store into a nilable map (trans_units_perf.go)
+		}
 		switch x := n.(type) {
 		case *ast.ForStmt:
 			eff = true
@@ -314,7 +317,7 @@ func (t *trTranslator) translateFunc(f *trFunc) {
 					panic(r)
 				}
 			}()
-			lt = c.leanType(v.Type(), pos)
+			lt = c.varType(v, pos)
 		}()
 		if lt == "" {
 			c.opaqueParams[v] = true
@@ -367,7 +370,7 @@ func (t *trTranslator) translateFunc(f *trFunc) {
 		rts = append(rts, c.leanType(m.Type(), f.decl.Pos()))
 	}
 	for i := 0; i < results.Len(); i++ {
-		rts = append(rts, c.leanType(results.At(i).Type(), f.decl.Pos()))
+		rts = append(rts, c.perfResultType(results.At(i).Type(), f.decl.Pos()))
 	}
 	switch len(rts) {
 	case 0:
@@ -616,6 +619,7 @@ func trRun(repo string) (map[string]string, []string) {
 		if s := body.String(); strings.Contains(s, "Fmt.pad") || strings.Contains(s, "Writer.Write") || strings.Contains(s, "Strings.Join") || strings.Contains(s, "Time.FormatISO") {
 			b.WriteString("import Knut.GoSem.Fmt\n") // io.Writer, fmt's padding, strings.Join, Time.Format (trans_units_jprinter.go)
 		}
+		b.WriteString(trPerfImports(body.String() + strings.Join(t.decls[u], "\n")))
 		var imps []string
 		for v := range t.imports[u] {
 			imps = append(imps, "import Knut.Generated.Trans"+v.mod)
